@@ -59,3 +59,28 @@ From JT Require Import gen.Brackets.
 Theorem C05_push_pop_is_bracketed_in_the_source : push_pop_bracketed = true /\ pop_unconditional = true.
 Proof. split; reflexivity. Qed.
 Print Assumptions C05_push_pop_is_bracketed_in_the_source.
+
+(* the interpreter with the wrapper's try/finally as a parameter (model/ProgSrc.v): instantiated with what the source
+   says now it IS model/Prog.v's interpreter and every block restores the caller's bindings; with the pop placed after
+   the body instead, a call whose body raises leaves its context behind (model witness) *)
+From JT Require Import model.ProgSrc proofs.ProgSrcFacts.
+Theorem C05_interpreter_as_in_source_is_the_model : forall lbl st p s,
+  run_src push_pop_bracketed lbl st p s = run lbl st p s.
+Proof. exact run_src_true_is_run. Qed.
+Print Assumptions C05_interpreter_as_in_source_is_the_model.
+
+Theorem C05_block_as_in_source_restores_callers_bindings : forall lbl st p s s' ev sg,
+  match p with
+  | PCall _ _ _ _ XGenerator => False
+  | PCall _ _ _ _ _ | PContext _ _ => True
+  | _ => False
+  end ->
+  run_src push_pop_bracketed lbl st p s = (s', ev, sg) -> s' = s.
+Proof. exact (fun lbl st p s s' ev sg => block_restores_stack_src lbl st push_pop_bracketed p s s' ev sg eq_refl). Qed.
+Print Assumptions C05_block_as_in_source_restores_callers_bindings.
+
+Theorem C05_pop_after_body_refuted : exists lbl st p s s' ev sg,
+  match p with PCall _ _ _ _ XGenerator => False | PCall _ _ _ _ _ => True | _ => False end /\
+  run_src false lbl st p s = (s', ev, sg) /\ s' <> s.
+Proof. exact pop_after_body_refuted. Qed.
+Print Assumptions C05_pop_after_body_refuted.
